@@ -59,7 +59,10 @@ class Whitening(TransformerMixin, BaseEstimator):
 
         # 1. Computes the mean vector and the covariance matrix of the training set
         mu = numerical_module.mean(X, axis=0)
-        cov = numerical_module.cov(numerical_module.transpose(X))
+        # cov of single-feature data is a scalar: keep it a (1, 1) matrix
+        cov = numerical_module.atleast_2d(
+            numerical_module.cov(numerical_module.transpose(X))
+        )
 
         # 2. Computes the inverse of the covariance matrix
         inv_cov = pinv(cov) if self.pinv else inv(cov)
